@@ -244,6 +244,7 @@ type Explorer struct {
 	opaqueFmt int
 	mapOrderNondet bool
 	files          *smap // vndFile registry of the current path
+	hashUF         bool  // maphash as an uninterpreted function (collisions explored)
 
 	model      Model // a model of pc[:modelLen]
 	modelLen   int
@@ -649,6 +650,10 @@ func init() {
 		return fr.i.b.Ite(args[0].(*Term), args[1].(*Term), args[2].(*Term))
 	}
 	vndIntrinsics["vndIteU64"] = vndIntrinsics["vndIteInt"]
+	vndIntrinsics["vndHashUninterpreted"] = func(fr *frame, args []value) value {
+		fr.i.ex.hashUF = args[0].(*Term).ConstBool()
+		return nil
+	}
 	vndIntrinsics["vndFile"] = func(fr *frame, args []value) value {
 		i := fr.i
 		if i.ex.files == nil {
@@ -951,6 +956,7 @@ func (ex *Explorer) runPath(it *workItem) (forks [][]decision) {
 	ex.opaqueFmt = 0
 	ex.mapOrderNondet = false
 	ex.files = nil
+	ex.hashUF = false
 	ex.haveModel = false
 	i.pc = i.pc[:0]
 	i.prefix = it.prefix
